@@ -2357,6 +2357,24 @@ class Planner:
                             pool.append(w)
         return pool
 
+    @staticmethod
+    def _small_enough(o, limit=4000):
+        """Fully lowered 3D forms have tens of thousands of nodes; every snapshot of one costs
+        seconds and a run with three of them takes two minutes.  They stay in the node, but
+        are not pool members of C13 (C27 and C12 still see them)."""
+        roots = [itg.integrand() for itg in o.integrals()] if isinstance(o, Form) else [o] if isinstance(o, Expr) else []
+        seen = set()
+        stack = list(roots)
+        while stack:
+            n_ = stack.pop()
+            if id(n_) in seen:
+                continue
+            seen.add(id(n_))
+            if len(seen) > limit:
+                return False
+            stack.extend(n_.ufl_operands)
+        return True
+
     def c13_program(self):
         r = self.rng
         self.cfg.setdefault("n_steps", r.randint(0, 5))
@@ -2410,7 +2428,7 @@ class Planner:
         for M in self.meshes:
             pool += M["coefs"] + M["consts"] + M["geos"] + [x for x in (M.get("v"), M.get("u")) if x is not None]
         pool += self.exprs + [f[0] for f in self.forms] + lits + [x for p in pairs for x in p[:2]]
-        pool = [s_ for s_ in dict.fromkeys(pool) if s_ in self.node.slots and isinstance(self.obj(s_), (Expr, BaseForm))]
+        pool = [s_ for s_ in dict.fromkeys(pool) if s_ in self.node.slots and isinstance(self.obj(s_), (Expr, BaseForm)) and self._small_enough(self.obj(s_))]
         res = self.result()
         res["pool"] = pool
         res["pairs"] = [p for p in pairs if p[0] in self.node.slots and p[1] in self.node.slots]
